@@ -17,7 +17,44 @@ PLACERS = ["sequential", "hilbert", "rcm", "breadth_first", "rand", "sa_c", "sa_
 VEC = [(1, 0), (1, 1), (0, 1), (-1, 0), (-1, -1), (0, -1)]
 
 
-def gen_case(rng):
+def gen_dense(rng):
+    """Many nets with few key bits through few chips (a strip of chips with little room on each): the stream
+    in which ordered covering merges entries of different nets on one chip, merged entries alias keys of
+    entries above them and default-routed hops of one net meet entries of others."""
+    w, h = rng.randint(3, 8), rng.randint(1, 2)
+    dead_links = []
+    if rng.random() < 0.6:          # mesh
+        for x in range(w):
+            for y in range(h):
+                for l, (dx, dy) in enumerate(VEC):
+                    if not (0 <= x + dx < w and 0 <= y + dy < h):
+                        dead_links.append([x, y, l])
+    nv = rng.randint(6, 14)
+    vertices = [dict(id="v%d" % i, cores=1, sdram=0) for i in range(nv)]
+    ids = [v["id"] for v in vertices]
+    nets = []
+    for _ in range(rng.randint(6, 16)):
+        nets.append(dict(source=rng.choice(ids), sinks=[rng.choice(ids) for _ in range(rng.randint(1, 3))], weight=1.0))
+    nbits = rng.choice([4, 5]) if len(nets) <= 16 else 5
+    vals = rng.sample(range(1 << nbits), len(nets))
+    shift = rng.choice([0, 8, 27])
+    keys = [[v << shift, ((1 << nbits) - 1) << shift] for v in vals]
+    return dict(machine=dict(w=w, h=h, dead_chips=[], dead_links=dead_links,
+                             cores=-(-nv // (w * h)) + rng.choice([1, 1, 2]), sdram=10000, exc=[]),
+                vertices=vertices, nets=nets, constraints=[], keys=keys)
+
+
+def gen_case(rng, big=False):
+    if big and rng.random() < 0.1:       # thorough tier: machines up to 12x12, more vertices
+        p = pnr_gen.gen_problem(rng, max_w=rng.choice([8, 12]), max_h=rng.choice([8, 12]), max_vertices=24)
+        return dict(problem=p, mode=rng.choice(["manual", "wrapper", "pnr"]), placer=rng.choice(PLACERS),
+                    radius=rng.choice([0, 1, 2, 20]), methods=rng.choice([["rd", "oc"], ["oc"], ["rd"], []]),
+                    target=rng.choice([None, None, 3, 1024, "dict"]), seed=rng.randint(0, 10 ** 6), stream="big")
+    if rng.random() < 0.4:
+        return dict(problem=gen_dense(rng), mode=rng.choice(["manual", "manual", "pnr"]),
+                    placer=rng.choice(["sequential", "hilbert", "rand", "breadth_first", "rcm"]),
+                    radius=rng.choice([0, 1, 20]), methods=rng.choice([["oc"], ["rd", "oc"], ["oc", "rd"], ["rd"]]),
+                    target=rng.choice([None, None, None, 3, 5, "dict"]), seed=rng.randint(0, 10 ** 6), stream="dense")
     p = pnr_gen.gen_problem(rng, max_w=rng.choice([3, 4, 6]), max_h=rng.choice([3, 4, 6]), max_vertices=12)
     mode = rng.choice(["manual", "manual", "manual", "wrapper", "pnr"])
     return dict(problem=p, mode=mode, placer=rng.choice(PLACERS), radius=rng.choice([0, 1, 2, 20]),
@@ -99,12 +136,12 @@ def run(chk, args):
                     "outputs are validated"]
     chk.regenerate(UNITS)
     chk.prove()
-    n = 160 if chk.tier == "quick" else 4000
+    n = 400 if chk.tier == "quick" else 4000
     if args.replay:
         rep = json.load(open(args.replay))
         cases = [f["replay"]["case"] for f in rep.get("failures", []) if "case" in f.get("replay", {})]
     else:
-        cases = [gen_case(chk.rng) for _ in range(n)]
+        cases = [gen_case(chk.rng, big=chk.tier != "quick") for _ in range(n)]
     corpus = lib.os.path.join(lib.VERIF, "corpus", "C01.json")
     if lib.os.path.exists(corpus):
         cases = json.load(open(corpus)) + cases
@@ -117,6 +154,7 @@ def run(chk, args):
         if o == ["hang"]:
             chk.fail_input("pipeline-hang", "the mapping pipeline did not terminate", dict(case=c))
             continue
+        chk.count("stream:" + c.get("stream", "general"))
         chk.count("mode:" + c["mode"])
         chk.count("placer:" + c["placer"])
         chk.count("status:" + o["status"] + (":" + o["exc"] if o["status"] == "raised" else ""))
@@ -166,13 +204,20 @@ def run(chk, args):
                 if oracle(c, o) is None:
                     chk.disagree("check_delivery rejects a mapping that the packet simulator accepts",
                                  dict(case=c, tables=o["tables"], nets=o["nets"]))
+            for i, v in zip(idx, vals):
+                if v is True and oracle(*ok_cases[i]) is not None:
+                    chk.disagree("check_delivery accepts a mapping that the packet simulator rejects",
+                                 dict(case=ok_cases[i][0], tables=ok_cases[i][1]["tables"], nets=ok_cases[i][1]["nets"]))
+                    break
             chk.traces_validated += len(vals)
             chk.oblige("validator:check_delivery accepted %d/%d real mappings inside Coq" % (len(vals) - len(bad), len(vals)),
                        not [i for i in bad if oracle(*ok_cases[i]) is None])
         except RuntimeError as e:
             chk.oblige("validator:check_delivery evaluates", False, str(e))
     chk.coverage["rule"] = ("random application graphs (<= 12 vertices incl. zero-core device vertices, nets with repeated "
-                            "sinks and self loops) on machines <= 6x6 (torus/mesh, dead chips, one- and two-directional dead "
+                            "sinks and self loops) on machines <= 6x6 (thorough tier: 10% up to 12x12, <= 24 vertices) (torus/mesh, dead chips, one- and two-directional dead "
                             "links, resource exceptions), constraints (location, same-chip, reservations, route endpoints), "
                             "7 placer configurations x radius {0,1,2,20} x minimisation chains x targets, by hand and through "
-                            "both wrappers; non-trivial = mapping succeeded with >= 2 expected deliveries; distinct by input hash")
+                            "both wrappers; plus a dense stream (40%: 6-16 nets with 4-5 key bits among 6-14 one-core vertices on a "
+                            "strip of 3..8 x 1..2 chips, full minimisation) where merged entries alias and default routes "
+                            "of one net meet entries of others; non-trivial = mapping succeeded with >= 2 expected deliveries; distinct by input hash")
